@@ -809,7 +809,12 @@ fn render_struct_line(
             let index = if ctx.impl_type.is_variant() { &Member::Named(format_ident!("f{}", index.index)) } else { &f.member };
             let field_path = get_child_field_path(index);
             let right_side = attr.get_action_or(Some(&field_path), ctx, || quote!(#obj #field_path));
-            quote!(#right_side,)
+            if ctx.has_post_init {
+                let field_name = attr.get_field_name_or(&f.member);
+                quote!(obj.#field_name = #right_side;)
+            } else {
+                quote!(#right_side,)
+            }
         },
         (Unnamed(_), Some(attr), Kind::OwnedIntoExisting | Kind::RefIntoExisting, TypeHint::Tuple | TypeHint::Unspecified) => {
             let left_field_path = get_field_path(attr.get_field_name_or(&f.member));
